@@ -173,4 +173,69 @@ theorem recallAt_sublist (t : R) {ms ms' : List R} (h : ms.Sublist ms') (npig : 
     ((h.map _).filter _).length_le
   exact div_le_div_of_nonneg_right (by exact_mod_cast this) (Nat.cast_nonneg _)
 
+/-! ### perfect predictions: a lower bound for every precision entry -/
+
+theorem precisionAt_cums_eq_sup (eps : R) (he : 0 ≤ eps) (npig : Nat) (fl : List Bool) (r : R) :
+    precisionAt (rcList (Nat.cast : Nat → R) npig (cums 0 0 fl))
+      (env (prList (Nat.cast : Nat → R) eps (cums 0 0 fl))) r =
+    sup0 (((cums 0 0 fl).map (opPoint eps npig)).map (term r)) := by
+  rw [rcList_eq eps npig, prList_eq eps npig]
+  apply precisionAt_eq_sup
+  · refine List.Pairwise.map _ ?_ (cums_sorted fl 0 0)
+    intro a b hab
+    exact div_le_div_of_nonneg_right (by exact_mod_cast hab) (Nat.cast_nonneg _)
+  · intro x hx
+    obtain ⟨y, _, rfl⟩ := List.mem_map.mp hx
+    exact (opPoint_snd_unit eps he npig y).1
+
+theorem cums_all_true : ∀ (n tp fp : Nat) (x : Nat × Nat), x ∈ cums tp fp (List.replicate n true) → x.2 = fp
+  | 0, _, _, x, h => by simp [cums] at h
+  | n + 1, tp, fp, x, h => by
+    rw [List.replicate_succ] at h
+    simp only [cums, List.mem_cons] at h
+    rcases h with rfl | h
+    · rfl
+    · exact cums_all_true n (tp + 1) fp x h
+
+/-- all `n` pairs are true positives, no false negative: the last operating point is
+`(recall 1, precision n/(n+eps))`, so every recall threshold `r ≤ 1` sees at least that precision -/
+theorem perfect_precision_ge (eps : R) (he : 0 ≤ eps) (n : Nat) (hn : 0 < n) (r : R) (hr : r ≤ 1) :
+    (n : R) / ((n : R) + eps) ≤
+      precisionAt (rcList (Nat.cast : Nat → R) n (cums 0 0 (List.replicate n true)))
+        (env (prList (Nat.cast : Nat → R) eps (cums 0 0 (List.replicate n true)))) r := by
+  rw [precisionAt_cums_eq_sup eps he]
+  have hne : List.replicate n true ≠ [] := by
+    intro h; have := congrArg List.length h; simp at this; omega
+  have hl := cums_last (List.replicate n true) 0 0 hne
+  cases hg : (cums 0 0 (List.replicate n true)).getLast? with
+  | none => rw [hg] at hl; simp at hl
+  | some x =>
+    rw [hg] at hl
+    have hx1 : x.1 = n := by simpa using hl
+    have hxm : x ∈ cums 0 0 (List.replicate n true) := List.mem_of_getLast? hg
+    have hx2 : x.2 = 0 := cums_all_true n 0 0 x hxm
+    have hnR : (0 : R) < (n : R) := by exact_mod_cast hn
+    have hterm : term r (opPoint eps n x) = (n : R) / ((n : R) + eps) := by
+      unfold term opPoint
+      simp only [hx1, hx2, Nat.cast_zero, zero_add]
+      rw [div_self (ne_of_gt hnR), if_neg (not_lt.mpr hr)]
+    rw [← hterm]
+    apply le_sup0
+    exact List.mem_map_of_mem (List.mem_map_of_mem hxm)
+
+theorem le_mean (c : R) : ∀ (l : List R), l ≠ [] → (∀ x ∈ l, c ≤ x) → c ≤ mean (Nat.cast : Nat → R) l := by
+  intro l hne h
+  have hs : c * (l.length : R) ≤ sumR l := by
+    clear hne
+    induction l with
+    | nil => simp [sumR]
+    | cons a t ih =>
+      have := ih (fun x hx => h x (List.mem_cons_of_mem _ hx))
+      have ha := h a List.mem_cons_self
+      rw [sumR_cons]
+      simp only [List.length_cons]; push_cast; linarith
+  have hpos : (0 : R) < (l.length : R) := by exact_mod_cast List.length_pos_iff.mpr hne
+  unfold mean
+  rw [le_div_iff₀ hpos]; exact hs
+
 end SleapVerif.Eval
